@@ -16,7 +16,7 @@ CONSTANTS MaxOps, FullUpTo, EmitReplay
 \* FullUpTo: unary prefixes and parentheses are varied for sequences of at most this many operators
 
 OpKinds == BinKinds
-Atoms == <<"a", "b", "c", "d", "e">>
+Atoms == <<"a", "b", "c", "d", "e", "f", "g">>
 UnChoices == {<<>>, <<"Minus">>, <<"LogicalNot", "BinaryNot">>}
 
 T0(k, txt) == [k |-> k, s |-> 0, e |-> 0, txt |-> txt, cs |-> <<>>]
